@@ -103,31 +103,41 @@ def pagePairs (pages : List ObjId) : Option (List (ObjId × ObjId)) :=
   else none
 
 /-- pairs of the dense pass: sorted ids, consecutive numbers from `start`, only ids whose number changes.
-Returns the pairs and the final `new_id`; `none` = `new_id += 1` overflowed `u32`. -/
+Returns the pairs and `start + n`; `none` = a number to hand out does not fit into `u32`. -/
 def densePairs : List ObjId → Nat → List (ObjId × ObjId) → Option (List (ObjId × ObjId) × Nat)
   | [], newId, acc => some (acc, newId)
   | id :: rest, newId, acc =>
     let acc' := if id.1 ≠ newId then acc ++ [(id, (newId, id.2))] else acc
-    if newId + 1 > U32_MAXE then none else densePairs rest (newId + 1) acc'
+    -- `starting_id + offset as u32`: the number handed out must fit (overflow checks on); the cursor is
+    -- never moved past the last one (fix of F-C10-c)
+    if newId > U32_MAXE then none else densePairs rest (newId + 1) acc'
 
-/-- first half of `renumber_objects_with`: put the pages in page order (only when they are not) -/
+/-- `.filter(|id| listed.insert(*id))`: every id once, at its first position (fix of F-C11-d) -/
+def firstOccAux (seen : List ObjId) : List ObjId → List ObjId
+  | [] => []
+  | x :: xs => if seen.contains x then firstOccAux seen xs else x :: firstOccAux (x :: seen) xs
+
+def firstOcc (l : List ObjId) : List ObjId := firstOccAux [] l
+
+/-- first half of `renumber_objects_with`: put the pages in page order (only when they are not); a page
+the tree lists more than once is taken once -/
 def pagePass (d : Doc) : Doc :=
-  match pagePairs (pageIter d.trailer d.objects) with
+  match pagePairs (firstOcc (pageIter d.trailer d.objects)) with
   | some pairs =>
     let st := movePass d.bookmarks d.objects d.bmTable pairs
     let r := traverse (renameAct st.replace) d.trailer st.objects
     { d with trailer := r.1, objects := r.2.1, bmTable := st.bm }
   | none => d
 
-/-- second half: consecutive numbers from `start`, `max_id = new_id - 1` -/
+/-- second half: consecutive numbers from `start`, `max_id` = the last number handed out -/
 def densePass (d1 : Doc) (start : Nat) : Outcome Doc :=
   match densePairs (sortBy idLeE d1.objects.keys) start [] with
   | none => .panic "add"
   | some (pairs, newId) =>
     let st := movePass d1.bookmarks d1.objects d1.bmTable pairs
     let r := traverse (renameAct st.replace) d1.trailer st.objects
-    if newId = 0 then .panic "sub"
-    else .ok { d1 with trailer := r.1, objects := r.2.1, bmTable := st.bm, maxId := newId - 1 }
+    -- `last_id.unwrap_or_else(|| starting_id.saturating_sub(1))`; `newId = start + n`
+    .ok { d1 with trailer := r.1, objects := r.2.1, bmTable := st.bm, maxId := newId - 1 }
 
 /-- `Document::renumber_objects_with` -/
 def renumber (d : Doc) (start : Nat) : Outcome Doc := densePass (pagePass d) start
